@@ -270,7 +270,7 @@ def run_scenario(shim, sbase, name, setup, target, mode, stats, rng, model_ok, t
                 getattr(sb, st.op)(*([st.path] + ([st.data] if st.op == "write" else [])))
                 r.res = None
             else:
-                r.res = sb.run(st.argv)
+                r.res = sb.run(st.real_argv)
             r.after = Snap(sb)
             r.new_objs = [k for k in r.after.objects if k not in prev.objects]
             for k in r.new_objs:
@@ -289,7 +289,7 @@ def run_scenario(shim, sbase, name, setup, target, mode, stats, rng, model_ok, t
         # ---- reference (fault-free) run with trace
         tr = os.path.join(sb.root, "trace")
         sb.extra_env = {"VERIF_TRACE": tr}
-        ref = sb.run(target.argv)
+        ref = sb.run(target.real_argv)
         sb.extra_env = {}
         ops = parse_trace(tr)
         after = Snap(sb)
@@ -331,7 +331,7 @@ def run_scenario(shim, sbase, name, setup, target, mode, stats, rng, model_ok, t
             saved.fresh()
             tr2 = os.path.join(sb.root, "trace")
             sb.extra_env = {"VERIF_TRACE": tr2, ("VERIF_CRASH" if mode == "crash" else "VERIF_FAULT"): str(k)}
-            res = sb.run(target.argv)
+            res = sb.run(target.real_argv)
             sb.extra_env = {}
             stats["evaluations"] += 1
             t2 = parse_trace(tr2)
@@ -350,7 +350,7 @@ def run_scenario(shim, sbase, name, setup, target, mode, stats, rng, model_ok, t
                     continue
                 if name == "init" and not Snap(sb).inited:
                     # nothing was installed: the state before init.  It must still be possible to initialise.
-                    again = sb.run(target.argv)
+                    again = sb.run(target.real_argv)
                     probs = [] if again.cls == "ok" else ["init interrupted, and a second init fails: %r" % again.err[:120]]
                     probs += usable(shim, sb, before, after) if again.cls == "ok" else []
                 else:
@@ -369,7 +369,7 @@ def run_scenario(shim, sbase, name, setup, target, mode, stats, rng, model_ok, t
                 if not probs and name != "init":
                     later = []
                     s_now = Snap(sb)
-                    follow = [target.argv]
+                    follow = [target.real_argv]
                     if s_now.refs:
                         follow.append(["switch", sorted(s_now.refs, key=len)[0]])
                     follow += [["config", "user.name", "q"], ["config", "user.email", "q@b.cc"], ["add", "."],
@@ -428,7 +428,7 @@ def run_scenario(shim, sbase, name, setup, target, mode, stats, rng, model_ok, t
                 # data by the commands that follow: the repository stays connected and no branch advances to a
                 # commit whose snapshot or blobs are damaged.
                 if not probs and res.cls == "err":
-                    r2 = sb.run(target.argv)
+                    r2 = sb.run(target.real_argv)
                     r3 = sb.run(["commit", "-m", "after the failure"])
                     s3 = Snap(sb)
                     later = []
